@@ -228,4 +228,88 @@ theorem fixModel_post (iv : Nat → List Nat) : ∀ (tops : List Top) (w : World
         show (fixModel (fixTop w t).toWorld ts).1.nname n = w.nname n
         rw [this]; exact e n hn
 
+/-- first-holder-keeps through the whole pass (same induction as `fixModel_post`) -/
+theorem fixModel_first (iv : Nat → List Nat) : ∀ (tops : List Top) (w : World), InitsOk w →
+    (∀ g u, u ∈ iv g ↔ w.initOf u = some g) →
+    (∀ t ∈ tops, Closed w.initOf t ∧ scopedB iv t.tr [] [] = true ∧ (allNodes t.body).Nodup) →
+    tops.Pairwise (TopDisj w.initOf) →
+    ∀ t ∈ tops,
+      (∀ L ∈ allScopes iv t.tr [], FirstB w.vname (fixModel w tops).1.vname L)
+      ∧ (∀ L ∈ allNodeScopes t.tr, FirstB w.nname (fixModel w tops).1.nname L)
+  | [], _, _, _, _, _ => fun t ht => by simp at ht
+  | t :: ts, w, h, hiv, hyp, hdisj => by
+    obtain ⟨hcl, hsc, hnd⟩ := hyp t List.mem_cons_self
+    have inv := fixTop_TInv h hcl
+    rw [fixModel_cons inv.nr]
+    have hio : (fixTop w t).toWorld.initOf = w.initOf := inv.io
+    rw [List.pairwise_cons] at hdisj
+    have hyp' : ∀ t' ∈ ts, Closed (fixTop w t).toWorld.initOf t' ∧ scopedB iv t'.tr [] [] = true ∧ (allNodes t'.body).Nodup :=
+      fun t' ht' => by rw [hio]; exact hyp t' (List.mem_cons_of_mem _ ht')
+    obtain ⟨fv, fn⟩ := fixModel_frame ts (fixTop w t).toWorld inv.ok (fun t' ht' => ⟨(hyp' t' ht').1, (hyp' t' ht').2.2⟩)
+    intro t0 ht0
+    rcases List.mem_cons.mp ht0 with rfl | ht0
+    · have sc := fixTop_scopes h hcl iv hiv hsc
+      have nd := fixTop_nodes inv.nr hnd
+      constructor
+      · intro L hL
+        have hsub := scope_sub_TopC hiv hL
+        exact (sc L hL).first.fin_eq
+          (fun x hx => fv x (fun t' ht' => by rw [hio]; exact (hdisj.1 t' ht').1 x (hsub x hx)))
+      · intro L hL
+        have hsub : ∀ m ∈ L, m ∈ allNodes t0.body := by
+          intro m hm
+          have := allNodeScopes_sub t0.tr L hL m hm
+          simpa [Top.tr, allNodes] using this
+        exact (nd.1 L hL).first.fin_eq (fun m hm => fn m (fun t' ht' => (hdisj.1 t' ht').2 m (hsub m hm)))
+    · have ih := fixModel_first iv ts (fixTop w t).toWorld inv.ok (fun g u => by rw [hio]; exact hiv g u) hyp'
+        (by rw [hio]; exact hdisj.2) t0 ht0
+      constructor
+      · intro L hL
+        have hsub := scope_sub_TopC hiv hL
+        exact (ih.1 L hL).orig_eq
+          (fun x hx => (inv.outside x (fun hc => (hdisj.1 t0 ht0).1 x hc (hsub x hx))).symm)
+      · intro L hL
+        have hsub : ∀ m ∈ L, m ∈ allNodes t0.body := by
+          intro m hm
+          have := allNodeScopes_sub t0.tr L hL m hm
+          simpa [Top.tr, allNodes] using this
+        exact (ih.2 L hL).orig_eq
+          (fun m hm => ((fixTop_nodes inv.nr hnd).2 m (fun hc => (hdisj.1 t0 ht0).2 m hc (hsub m hm))).symm)
+
+/-- the first element of `A` that satisfies `p` -/
+theorem exists_first {α : Type} (p : α → Prop) : ∀ (A : List α), (∃ u ∈ A, p u) →
+    ∃ A1 a A2, A = A1 ++ a :: A2 ∧ p a ∧ ∀ u ∈ A1, ¬ p u
+  | [], h => by obtain ⟨u, hu, _⟩ := h; simp at hu
+  | x :: xs, h => by
+    by_cases hx : p x
+    · exact ⟨[], x, xs, rfl, hx, fun u hu => by simp at hu⟩
+    · obtain ⟨u, hu, hpu⟩ := h
+      have : ∃ u ∈ xs, p u := by
+        rcases List.mem_cons.mp hu with e | e
+        · exact absurd (e ▸ hpu) hx
+        · exact ⟨u, e, hpu⟩
+      obtain ⟨A1, a, A2, e, ha, hn⟩ := exists_first p xs this
+      refine ⟨x :: A1, a, A2, by rw [e]; rfl, ha, ?_⟩
+      intro u hu
+      rcases List.mem_cons.mp hu with e | e
+      · exact e ▸ hx
+      · exact hn u e
+
+/-- from "injective on `L`" and "first holder keeps": exactly the later holders of a name lose it -/
+theorem first_exact {orig fin : Nat → Option String} {L : List Nat} (hf : FirstB orig fin L)
+    (hinj : ∀ a ∈ L, ∀ b ∈ L, a ≠ b → fin a ≠ fin b) (A : List Nat) (v : Nat) (B : List Nat) (e : L = A ++ v :: B)
+    (ht : truthy (orig v) = true) :
+    ((∀ u ∈ A, orig u ≠ orig v) → fin v = orig v)
+    ∧ (v ∉ A → (∃ u ∈ A, orig u = orig v) → fin v ≠ orig v) := by
+  refine ⟨hf.split A v B e ht, ?_⟩
+  intro hv hex
+  obtain ⟨A1, a, A2, eA, ha, hn⟩ := exists_first (fun u => orig u = orig v) A hex
+  have hav : a ≠ v := fun h => hv (by rw [eA, ← h]; simp)
+  have keep : fin a = orig a := by
+    refine hf.split A1 a (A2 ++ v :: B) (by rw [e, eA]; simp) (by rw [ha]; exact ht) ?_
+    intro u hu; rw [ha]; exact hn u hu
+  intro hfv
+  refine hinj a (by rw [e, eA]; simp) v (by rw [e]; simp) hav ?_
+  rw [keep, ha, hfv]
+
 end IrVerif.Names
